@@ -112,6 +112,19 @@ Supported subset
               (`file_obj.seek(k)` is a spec-declared rewrite to "the file as it stands at offset k", a parameter);
               BlockTr `before` (statements in front of the anchor), nested defs translated on their own are
               skipped inside a block.
+              objects (fourth round): `SectionParser(title, version=v)` is the tuple of attributes the translated
+              __init__ sets (`classes`), `parser.section_name2` a projection of it (AttributeError where __init__
+              may have left the attribute unset), `parser( **d)` the translated SectionParser.__call__ - which must
+              be exactly `item = self.func( **keys); return item`, else refused: the method whose name __init__
+              stored, applied to the record of d's name / unit / value / descr entries (pyo_keys_of_dict);
+              `SectionItems()`, `section.mnemonic_transforms = True`, `section.append(item)`, `return section` on an
+              abstract section (operation record sect_ops); a name the spec lists as an alias of a translated
+              function must be its forwarding wrapper (`return f(*args, **kwargs)`, `aliases`); f(args, kw=...) for
+              translated functions of the same module; `try: v = <translated call> except: H else: E` (None of the
+              call = it raised, whatever the class); `name = "...".format(...)` for a name used only in logging
+              calls and raise statements is skipped (`message_names`); `x in (<str constants>)`;
+              loops that may raise (`loop_raise`): the fold carries an option of the break / continue state
+              (None: an exception left the loop and the function), partial operations are allowed in the body.
   refused     a translated name that is bound a second time in its module / class (or assigned through
               Class.name / setattr / global) is refused: the translation would not be what runs.
   fragments   BlockTr (a block of a big method from an anchor statement to the end of its statement list, or its
@@ -142,7 +155,8 @@ STR, INT, BOOL, PAT, PATS, DYN, NONE, MATCH = "str", "int", "bool", "pat", "pats
 ITEM, KEYS, VERSION, OTABLE, OENTRY, OEX, FLOATV, REGEX, TPL, ARR, CURVE, SAMPLE, SECTION = \
     "item", "keys", "version", "otable", "oentry", "oex", "floatv", "regex", "tpl", "arr", "curve", "sample", "section"
 MATCHOBJ = "matchobj"
-FILE, JOINED = "file", "joined"
+FILE, JOINED, SECT = "file", "joined", "sect"
+PARSER = ("tuple", "str", "str", ("opt", "str"), ("opt", ("dict", "str", "str")))     # what SectionParser.__init__ sets
 SUBPAIR = ("tuple", "regex", "tpl")
 
 
@@ -176,7 +190,7 @@ SIMPLE_TYPE = {STR: "list N", INT: "Z", BOOL: "bool", PAT: "list frag", PATS: "l
                OTABLE: "list ((las_version * list N) * order_entry)", OENTRY: "order_entry",
                OEX: "(item_order * list (list N))", FLOATV: "F", REGEX: "re", TPL: "list tpl", ARR: "A", CURVE: "C",
                SAMPLE: "Smp", SECTION: "(bool * list (py_item V))",
-               MATCHOBJ: "option st", FILE: "list (list N)", JOINED: "list N"}
+               MATCHOBJ: "option st", FILE: "list (list N)", JOINED: "list N", SECT: "S"}
 
 
 def is_type(ty, kind):
@@ -441,6 +455,20 @@ Definition pyo_tpl_eqb (a b : tpl) : bool :=
   end.
 Definition pyo_sub_eqb (a b : re * list tpl) : bool :=
   pyo_re_eqb (fst a) (fst b) && pyo_list_eqb pyo_tpl_eqb (snd a) (snd b).
+(* f( **d) for a SectionParser method / parser object and the dict d read_header_line returned: the record of its
+   name / unit / value / descr entries (None: one of them is missing; the methods read all four) *)
+Definition pyo_keys_of_dict (d : list (list N * list N)) : option py_keys :=
+  obind (pyo_dict_item d [110; 97; 109; 101]) (fun n =>
+  obind (pyo_dict_item d [117; 110; 105; 116]) (fun u =>
+  obind (pyo_dict_item d [118; 97; 108; 117; 101]) (fun v =>
+  obind (pyo_dict_item d [100; 101; 115; 99; 114]) (fun de => Some (mk_py_keys n u v de))))).
+(* a SectionItems object under construction (S), for code that only creates it, switches its
+   mnemonic_transforms flag on and appends items (I) *)
+Record sect_ops (S I : Type) := mk_sect_ops {
+  s_new : S;
+  s_set_transforms : S -> S;
+  s_append : S -> I -> S }.
+Arguments s_new {S I}. Arguments s_set_transforms {S I}. Arguments s_append {S I}.
 (* the AST of a concatenation of pattern strings, shaped as translators/regexes.py shapes a
    sequence *)
 Fixpoint seq_of (l : list re) : re :=
@@ -481,6 +509,7 @@ def indent(code, n=2):
     return "\n".join(pad + l if l else l for l in code.split("\n"))
 
 
+PARSER_ATTRS = ("func", "section_name2", "default_order", "orders")
 ITEM_ATTRS = {"mnemonic": STR, "original_mnemonic": STR, "unit": STR, "value": DYN, "descr": STR}
 KEYS_FIELDS = ("name", "unit", "value", "descr")
 REGISTRY = {}        # qualified python name -> how a translated function is called from another one
@@ -510,6 +539,7 @@ class Tr:
         self.handlers = []       # enclosing `try ... except <Class>:` handlers, innermost last
         self.loop_brk = []       # inside loops with a break: what `break` emits
         self.loop_cont = []      # ... and what `continue` emits
+        self.loop_raising = []   # ... and whether the loop is translated with an option-valued state (the body may raise)
         self.alias = {}          # x -> (l, i, binding counts) after `x = l[i]`
         self.bind_count = {}
 
@@ -525,7 +555,7 @@ class Tr:
         """the construct at hand may raise: its context must produce an option"""
         if self.in_try:
             self.err(node, "an operation that may raise inside a try whose handler is not translated")
-        if self.loop_ret or self.loop_brk:
+        if self.loop_ret or (self.loop_brk and not self.loop_raising[-1]):
             self.err(node, "an operation that may raise inside a loop with a return / break")
         if not self.pmode[-1]:
             raise NeedPartial()
@@ -635,6 +665,14 @@ class Tr:
             if isinstance(n.value, ast.Name) and n.value.id not in env:
                 self.err(n, "unsupported attribute access")
             v = self.expr(n.value, env)
+            if v.ty == PARSER and n.attr in PARSER_ATTRS:
+                k = PARSER_ATTRS.index(n.attr)
+                names = ["p%d_" % i for i in range(len(PARSER_ATTRS))]
+                if is_type(PARSER[1 + k], "opt"):
+                    # an attribute __init__ may have left unset: AttributeError
+                    return self.partial_op([v], lambda c: "(let '(%s) := %s in %s)" % (", ".join(names), c[0], names[k]),
+                                           PARSER[1 + k][1], exc="AttributeError")
+                return self.strict([v], lambda c: "(let '(%s) := %s in %s)" % (", ".join(names), c[0], names[k]), PARSER[1 + k])
             if v.ty == SECTION and n.attr.isupper() and "SectionItems.__getitem__" in REGISTRY:
                 # section.NAME is section["NAME"] (SectionItems.__getattr__; AttributeError / KeyError: None)
                 r = REGISTRY["SectionItems.__getitem__"]
@@ -908,6 +946,9 @@ class Tr:
             if a.ty != STR or v.ty != VERSION:
                 self.err(n, "membership of %s in the order table at %s" % (a.ty, v.ty))
             return self.strict([t, v, a], lambda c: wrap("pyo_is_some (pyo_order_lookup (%s) (%s) (%s))" % (c[0], c[1], c[2])), BOOL)
+        if isinstance(op, (ast.In, ast.NotIn)) and isinstance(r, ast.Tuple) and r.elts \
+                and all(isinstance(x, ast.Constant) and isinstance(x.value, str) for x in r.elts):
+            r = ast.copy_location(ast.List(elts=r.elts, ctx=ast.Load()), r)      # membership in a tuple of str constants
         a, b = self.expr(n.left, env), self.expr(r, env)
         if isinstance(op, (ast.Eq, ast.NotEq)):
             if a.ty == STR and b.ty == STR:
@@ -1171,6 +1212,58 @@ class Tr:
                 self.err(n, "enumerate of %s from %s" % (a.ty, st.ty))
             ety = STR if a.ty == FILE else a.ty[1]
             return self.strict([a, st], lambda c: "pyo_enumerate_from (%s) (%s)" % (c[1], c[0]), LIST(TUPLE(INT, ety)))
+        if isinstance(n.func, ast.Name) and n.func.id not in env and n.func.id in self.spec.get("classes", {}):
+            cls = n.func.id
+            kind = self.spec["classes"][cls]
+            if kind == "parser" and "SectionParser.__init__" in REGISTRY:
+                # SectionParser(title, version=v): the attributes __init__ sets (None: it raised)
+                r = REGISTRY["SectionParser.__init__"]
+                given = dict(zip(r["pnames"], n.args))
+                for kw in n.keywords:
+                    if kw.arg not in r["pnames"] or kw.arg in given:
+                        self.err(n, "keyword argument %s of %s" % (kw.arg, cls))
+                    given[kw.arg] = kw.value
+                if len(n.args) > len(r["pnames"]) or set(given) != set(r["pnames"]):
+                    self.err(n, "arguments of %s" % cls)
+                args = [self.expr_want(given[pn], env, t) for pn, t in zip(r["pnames"], r["args"])]
+                e = self.call_registered("SectionParser.__init__", args, n)
+                if e.ty != PARSER:
+                    self.err(n, "SectionParser.__init__ no longer has the declared result")
+                return e
+            if kind == "section" and not n.args and not n.keywords:
+                return E("s_new sops", SECT)             # SectionItems(): an empty section
+            self.err(n, "unsupported construction of %s" % cls)
+        if isinstance(n.func, ast.Name) and env.get(n.func.id) == PARSER and not n.args and len(n.keywords) == 1 \
+                and n.keywords[0].arg is None and "SectionParser.__call__" in REGISTRY:
+            # parser(**d): SectionParser.__call__ on the dict read_header_line returned
+            d = self.expr(n.keywords[0].value, env)
+            if d.ty != DICT(STR, STR):
+                self.err(n, "parser(**d) with d of type %s" % (d.ty,))
+            keys = self.partial_op([d], lambda c: "pyo_keys_of_dict (%s)" % c[0], KEYS, exc="KeyError")
+            return self.call_registered("SectionParser.__call__", [E(self.var(n.func.id), PARSER), keys], n)
+        if isinstance(n.func, ast.Name) and n.func.id not in env and n.func.id in self.spec.get("aliases", {}):
+            n = ast.copy_location(ast.Call(func=ast.copy_location(ast.Name(id=self.spec["aliases"][n.func.id], ctx=ast.Load()), n.func),
+                                           args=n.args, keywords=n.keywords), n)
+        if isinstance(n.func, ast.Name) and n.func.id not in env and n.keywords and n.func.id in REGISTRY \
+                and REGISTRY[n.func.id].get("file") == self.spec["file"] and all(kw.arg for kw in n.keywords):
+            # f(positional and keyword arguments) for a module-level function of the same module translated earlier
+            r = REGISTRY[n.func.id]
+            given = dict(zip(r["pnames"], n.args))
+            if len(n.args) > len(r["pnames"]):
+                self.err(n, "too many arguments for %s" % n.func.id)
+            for kw in n.keywords:
+                if kw.arg not in r["pnames"] or kw.arg in given:
+                    self.err(n, "keyword argument %s of %s" % (kw.arg, n.func.id))
+                given[kw.arg] = kw.value
+            args = []
+            for pn, t in zip(r["pnames"], r["args"]):
+                if pn in given:
+                    args.append(self.expr_want(given[pn], env, t))
+                elif is_type(t, "opt") and pn in r["none_defaults"]:
+                    args.append(E("None", t))
+                else:
+                    self.err(n, "argument %s of %s is not given" % (pn, n.func.id))
+            return self.call_registered(n.func.id, args, n)
         if n.keywords:
             self.err(n, "keyword arguments")
         f = n.func
@@ -1411,6 +1504,8 @@ class Tr:
                 add(t.value.id)
             elif isinstance(t, ast.Attribute) and isinstance(t.value, ast.Subscript) and isinstance(t.value.value, ast.Name):
                 add(t.value.value.id)
+            elif isinstance(t, ast.Attribute) and isinstance(t.value, ast.Name):
+                add(t.value.id)
         sink = self.spec.get("write_sink")
         elem_of = {}
         for s in stmts:
@@ -1610,6 +1705,14 @@ class Tr:
             load = ast.copy_location(ast.Name(id=s.target.id, ctx=ast.Load()), s.target)
             v = ast.copy_location(ast.BinOp(left=load, op=s.op, right=s.value), s)
             s = ast.copy_location(ast.Assign(targets=[s.target], value=v), s)
+        if isinstance(s, ast.Assign) and len(s.targets) == 1 and isinstance(s.targets[0], ast.Name) and isinstance(s.value, ast.Call) \
+                and isinstance(s.value.func, ast.Attribute) and s.value.func.attr == "format" \
+                and isinstance(s.value.func.value, ast.Constant) and isinstance(s.value.func.value.value, str) \
+                and s.targets[0].id in self.spec.get("message_names", ()):
+            # a message text that only logging calls and raise statements use (checked by function()): not modelled
+            env2 = dict(env)
+            env2[s.targets[0].id] = None
+            return go(env2)
         if isinstance(s, ast.Assign):
             return self.assign(s, env, go)
         if isinstance(s, ast.Expr) and isinstance(s.value, ast.Call) and isinstance(s.value.func, ast.Attribute) \
@@ -1648,6 +1751,9 @@ class Tr:
                     # SectionItems.append: an operation of the spec's record, not list.append
                     a = self.coerce(a, lty[1], s)
                     new = self.strict([a], lambda c: "%s (%s) (%s)" % (self.spec["append_ops"][name], self.var(name), c[0]), lty)
+                elif lty == SECT:
+                    a = self.coerce(a, ITEM, s)
+                    new = self.strict([a], lambda c: "s_append sops %s (%s)" % (self.var(name), c[0]), SECT)
                 elif lty == PATS:
                     if a.ty != PAT or a.partial:
                         self.err(s, "append of %s to a pattern list" % (a.ty,))
@@ -1815,6 +1921,12 @@ class Tr:
                 self.var(name), c[0], setter[0], c[1]), lty)
             pre, post, env2 = self.bind(name, new, env, s)
             return pre + go(env2) + post
+        if isinstance(tg, ast.Attribute) and isinstance(tg.value, ast.Name) and env.get(tg.value.id) == SECT:
+            # section.mnemonic_transforms = True
+            if tg.attr != "mnemonic_transforms" or not (isinstance(v, ast.Constant) and v.value is True):
+                self.err(s, "assignment to an attribute of a section other than mnemonic_transforms = True")
+            pre, post, env2 = self.bind(tg.value.id, E("s_set_transforms sops %s" % self.var(tg.value.id), SECT), env, s)
+            return pre + go(env2) + post
         if isinstance(tg, ast.Subscript):
             # d[k] = v on a local dict
             if not (isinstance(tg.value, ast.Name) and is_type(env.get(tg.value.id), "dict")):
@@ -1935,7 +2047,7 @@ class Tr:
         if self.handlers:
             self.err(s, "a loop inside try/except")
         breaks = any(isinstance(x, (ast.Break, ast.Continue)) for b in s.body for x in ast.walk(b))
-        raises = self.spec.get("loop_raise") and any(isinstance(x, ast.Raise) for b in s.body for x in ast.walk(b))
+        raises = bool(self.spec.get("loop_raise")) and (breaks or any(isinstance(x, ast.Raise) for b in s.body for x in ast.walk(b)))
         for x in ast.walk(s):
             if isinstance(x, (ast.FunctionDef, ast.Lambda, ast.While)) or (isinstance(x, ast.Raise) and not raises):
                 self.err(x, "%s inside a for loop" % type(x).__name__)
@@ -2013,7 +2125,8 @@ class Tr:
         if returns:
             return self.for_return(s, env, go, state, targets, binder, unpack, it, touched, tnames)
         if breaks:
-            return self.for_break(s, env, go, state, targets, binder, unpack, it, touched, tnames)
+            return self.for_break(s, env, go, state, targets, binder, unpack, it, touched, tnames,
+                                  raising=bool(self.spec.get("loop_raise")))
         for nm in state:
             self.ctype(env[nm], s)
         env_body = dict(env)
@@ -2043,9 +2156,10 @@ class Tr:
             pat, pat if len(state) > 1 else "(%s : %s)" % (tup, self.ctype(env[state[0]], s)), binder, indent(unpack + body),
             it.code, tup, go(env3))
 
-    def for_break(self, s, env, go, state, targets, binder, unpack, it, touched, tnames):
+    def for_break(self, s, env, go, state, targets, binder, unpack, it, touched, tnames, raising=False):
         """a loop whose body may break: the fold carries inl <state> once the loop is left, else inr <state>.
-        The body must not raise."""
+        The body must not raise - unless the spec declares `loop_raise`: then the fold carries an option of that
+        (None: an exception left the loop, and the function)."""
         if not state:
             self.err(s, "a loop that changes no variable defined before it")
         for nm in state:
@@ -2060,21 +2174,29 @@ class Tr:
             for nm in state:
                 if env2.get(nm) != env[nm]:
                     self.err(s, "the loop changes the type of %r" % nm)
-            return "%s %s" % (tag, tup)
+            return ("Some (%s %s)" if raising else "%s %s") % (tag, tup)
+        if raising:
+            self.need_partial(s)
         self.loop_brk.append(lambda env2: leave(env2, "inl"))
         self.loop_cont.append(lambda env2: leave(env2, "inr"))
-        self.pmode.append(False)
+        self.loop_raising.append(raising)
+        self.pmode.append(raising)
         try:
             body = self.stmts(s.body, env_body, lambda env2: leave(env2, "inr"))
         finally:
             self.pmode.pop()
             self.loop_brk.pop()
             self.loop_cont.pop()
+            self.loop_raising.pop()
         env3 = dict(env)
         for nm in touched + tnames:
             if nm not in state:
                 env3[nm] = None
         acc, r = self.fresh(), self.fresh()
+        if raising:
+            return ("obind (option_map (fun %s => match %s with inl %s => %s | inr %s => %s end)\n"
+                    "  (fold_left (fun %s %s => match %s with None => None | Some (inl %s) => Some (inl %s) | Some (inr %s) =>\n%s\n    end) (%s) (Some (inr %s)))) (fun %s =>\n%s)") % (
+                acc, acc, r, r, r, r, acc, binder, acc, r, r, tup, indent(unpack + body, 6), it.code, tup, pat, go(env3))
         return ("let %s :=\n  match fold_left (fun %s %s => match %s with inl %s => inl %s | inr %s =>\n%s\n    end) (%s) (inr %s) with\n"
                 "  | inl %s => %s\n  | inr %s => %s\n  end in\n%s") % (
             pat, acc, binder, acc, r, r, tup, indent(unpack + body, 6), it.code, tup, r, r, r, r, go(env3))
@@ -2116,8 +2238,8 @@ class Tr:
         if len(hs) != 1 or hs[0].name is not None or s.finalbody:
             self.err(s, "unsupported try statement")
         h = hs[0]
-        if s.orelse and not (isinstance(h.type, ast.Name) and h.type.id in ("TypeError", "IndexError", "KeyError", "ValueError",
-                                                                             "AssertionError")):
+        if s.orelse and h.type is not None and not (isinstance(h.type, ast.Name) and h.type.id in (
+                "TypeError", "IndexError", "KeyError", "ValueError", "AssertionError")):
             self.err(s, "try / else with this handler")
         if isinstance(h.type, ast.Name) and h.type.id == "AttributeError" and len(h.body) == 1 and isinstance(h.body[0], ast.Pass):
             # no supported operation on the declared types raises AttributeError
@@ -2147,7 +2269,7 @@ class Tr:
         oracles = self.spec.get("oracles", {})
         st = s.body[0] if len(s.body) == 1 else None
         call = st.value if isinstance(st, (ast.Return, ast.Assign)) else None
-        if isinstance(call, ast.Call) and ast.unparse(call.func) in oracles and oracles[ast.unparse(call.func)]["raises"]:
+        if isinstance(call, ast.Call) and ast.unparse(call.func) in oracles and oracles[ast.unparse(call.func)]["raises"] and not s.orelse:
             if isinstance(st, ast.Assign) and not (len(st.targets) == 1 and isinstance(st.targets[0], ast.Name)):
                 self.err(st, "unsupported assignment target")
             o = self.oracle(call, env)
@@ -2159,6 +2281,18 @@ class Tr:
                 ok = pre + go(env2) + post
             bad = self.stmts(h.body, env, go)
             return "match %s with\n| Some %s =>\n%s\n| None =>\n%s\nend" % (o.code, t, indent(ok), indent(bad))
+        if isinstance(st, ast.Assign) and len(st.targets) == 1 and isinstance(st.targets[0], ast.Name) and isinstance(call, ast.Call) \
+                and not self.handlers:
+            # try: v = <a translated call; None: it raised, whatever the class>  except: HANDLER  else: ELSE
+            e = self.expr(call, env)
+            if e.partial:
+                t = self.fresh()
+                pre, post, env2 = self.bind(st.targets[0].id, E(t, e.ty), env, st)
+                ok = pre + self.stmts(s.orelse, env2, go) + post
+                bad = self.stmts(h.body, env, go)
+                return "match %s with\n| Some %s =>\n%s\n| None =>\n%s\nend" % (e.code, t, indent(ok), indent(bad))
+        if s.orelse:
+            self.err(s, "unsupported try / else")
         # try: <statements that cannot raise on the declared types>  except: pass
         if len(h.body) == 1 and isinstance(h.body[0], ast.Pass):
             self.in_try += 1
@@ -2258,6 +2392,12 @@ class Tr:
             env0[spec["kwarg"][0]] = spec["kwarg"][1]
         body = self.body_of(fn)
         self.check_closures(body)
+        for nm in spec.get("message_names", ()):
+            # every use of the name is an argument of a logging call or of the exception of a raise
+            ok = {id(x) for st in ast.walk(fn) if isinstance(st, ast.Raise) or self.is_logger_call(st) for x in ast.walk(st)}
+            for x in ast.walk(fn):
+                if isinstance(x, ast.Name) and x.id == nm and isinstance(x.ctx, ast.Load) and id(x) not in ok:
+                    self.err(x, "%s is used outside logging / raise" % nm)
 
         def off_end(env2):
             if spec.get("returns_lambda"):
@@ -2323,6 +2463,13 @@ class Tr:
         else:
             out.append("Definition %s %s : %s :=\n%s." % (spec["coq"], " ".join(binders), rty, indent(code)))
         # how other translated functions call this one (positional parameters only)
+        if spec.get("kwarg") and spec.get("cls") and not spec.get("opaque_tests") and not spec.get("returns_lambda") \
+                and [t for _, t in spec["params"] if t is not None] == []:
+            # a method of **keys: only parser_call_def calls it (with the keys record as its last argument)
+            REGISTRY["%s.%s" % (spec["cls"], spec["py"])] = dict(
+                coq=spec["coq"], args=list(spec.get("self_attrs", {}).values()) + [spec["kwarg"][1]], ret=spec["ret"],
+                partial=self.fn_partial, ops=needs_ops, extra=list(spec.get("extra_binders", [])), file=None, mutator=False,
+                pnames=[], none_defaults=[], self_attrs=list(spec.get("self_attrs", {})), kwarg=True)
         if not spec.get("opaque_tests") and not spec.get("returns_lambda") and not spec.get("kwarg"):
             qual = "%s.%s" % (spec["py"], spec["nested_name"]) if spec.get("nested_name") else \
                 (spec["cls"] + "." if spec.get("cls") else "") + spec["py"]
@@ -2902,6 +3049,15 @@ SPECS += [
          module_regexes={"sow_regex": "rx_sow"},
          module_consts_decl={"defaults.HYPHEN_SUBS": LIST(STR), "defaults.READ_SUBS": DICT(STR, LIST(SUBPAIR))},
          ret=TUPLE(INT, LIST(SUBPAIR))),
+    dict(py="__call__", file="reader.py", cls="SectionParser", coq="py_parser_call", parser_call=True,
+         method_tags=("curves", "params", "metadata")),
+    dict(py="parse_header_items_section", file="reader.py", cls=None, coq="py_parse_header_items_section",
+         params=[("file_obj", FILE), ("line_nos", TUPLE(INT, INT)), ("version", VERSION), ("ignore_header_errors", BOOL),
+                 ("mnemonic_case", STR), ("ignore_comments", LIST(STR))],
+         defaults={"ignore_header_errors": "False", "mnemonic_case": '"preserve"', "ignore_comments": '("#",)'},
+         classes={"SectionParser": "parser", "SectionItems": "section"}, aliases={"read_line": "read_header_line"},
+         message_names=("message",), loop_raise=True, ret=SECT,
+         extra_binders=NUM_BINDERS + [("{S : Type} (sops : sect_ops S (py_item V))", "sops")]),
     dict(py="read_data_section_iterative_normal_engine", file="reader.py", cls=None, coq="py_engine_items",
          translator=NestedDefTr, nested_name="items", n_own=3, yields=("out_", SUM(FLOATV, STR)),
          params=[("f", FILE), ("start_line_no", INT), ("end_line_no", INT), ("ignore_data_comments", STR),
@@ -3086,6 +3242,52 @@ def module_constant(repo, using_tree, qual, ty):
     return render_literal(bs[0].value, ty, qual)
 
 
+def parser_call_def(fn, spec):
+    """SectionParser.__call__ must be exactly `item = self.func(**keys); return item`: the parser object (the
+    attributes __init__ set; self.func holds the NAME of the method __init__ stored) applied to the keys is that
+    method of the same object applied to them.  A method's self attribute that __init__ left unset: AttributeError."""
+    body = [st for st in fn.body if not (isinstance(st, ast.Expr) and isinstance(st.value, ast.Constant))]
+    a = fn.args
+    if [x.arg for x in a.args] != ["self"] or a.vararg or a.kwonlyargs or a.posonlyargs or a.defaults or a.kwarg is None \
+            or a.kwarg.arg != "keys" or fn.decorator_list:
+        raise TranslateError("SectionParser.__call__: unexpected signature")
+    want = ast.parse("item = self.func(**keys)\nreturn item").body
+    if [ast.dump(x) for x in body] != [ast.dump(x) for x in want]:
+        raise TranslateError("SectionParser.__call__ is no longer `item = self.func(**keys); return item`")
+    names = ["p_%s" % x for x in PARSER_ATTRS]
+    code = "None"
+    for tag in reversed(spec["method_tags"]):
+        r = REGISTRY.get("SectionParser." + tag)
+        if r is None or r["args"][len(r["self_attrs"]):] != [KEYS] or r["ret"] != ITEM:
+            raise TranslateError("SectionParser.%s is not translated as a method of **keys" % tag)
+        head = r["coq"] + (" ops" if r["ops"] else "")
+        for b in r["extra"]:
+            if b not in NUM_BINDERS:
+                raise TranslateError("SectionParser.%s needs %s" % (tag, b[1]))
+            head += " " + b[1]
+        pats, conds = [], []
+        for attr, t in zip(r["self_attrs"], r["args"]):
+            k = PARSER_ATTRS.index(attr)
+            if PARSER[1 + k] == OPT(t):
+                conds.append((names[k], "a_%s" % attr))
+                head += " a_%s" % attr
+            elif PARSER[1 + k] == t:
+                head += " " + names[k]
+            else:
+                raise TranslateError("SectionParser.%s reads self.%s with another type" % (tag, attr))
+        call = "%s v_keys" % head
+        if not r["partial"]:
+            call = "Some (%s)" % call
+        for nm, a_ in reversed(conds):
+            call = "match %s with Some %s => %s | None => None end" % (nm, a_, call)
+        code = "if str_eqb p_func %s then %s\n  else %s" % (cstr(tag), call, code)
+    REGISTRY["SectionParser.__call__"] = dict(coq=spec["coq"], args=[PARSER, KEYS], ret=ITEM, partial=True, ops=True,
+                                               extra=list(NUM_BINDERS), file=None, mutator=False, pnames=["self", "keys"],
+                                               none_defaults=[], self_attrs=[])
+    return ("Definition %s {V : Type} (ops : dyn_ops V) %s (v_self : %s) (v_keys : py_keys) : option (py_item V) :=\n"
+            "  let '(%s) := v_self in\n  %s.") % (spec["coq"], NUM_BINDERS[0][0], coq_type(PARSER), ", ".join(names), code)
+
+
 def find_function(tree, spec):
     scope = tree.body
     if spec.get("cls"):
@@ -3129,6 +3331,21 @@ def render(repo):
             continue
         fn = find_function(trees[path], spec)
         check_not_rebound(trees[path], spec, fn)
+        if spec.get("parser_call"):
+            out.append("(* ---- %s:%s.%s ---- *)" % (spec["file"], spec["cls"], spec["py"]))
+            out.append(parser_call_def(fn, spec))
+            out.append("")
+            continue
+        for al, target in spec.get("aliases", {}).items():
+            # `al` must be exactly the forwarding wrapper of `target`, bound once
+            afn = find_function(trees[path], dict(py=al, cls=None))
+            check_not_rebound(trees[path], dict(py=al, cls=None), afn)
+            abody = [st for st in afn.body if not (isinstance(st, ast.Expr) and isinstance(st.value, ast.Constant))]
+            a = afn.args
+            if a.args or a.kwonlyargs or a.posonlyargs or a.vararg is None or a.kwarg is None or afn.decorator_list \
+                    or [ast.dump(x) for x in abody] != [ast.dump(x) for x in ast.parse(
+                        "return %s(*%s, **%s)" % (target, a.vararg.arg, a.kwarg.arg)).body]:
+                raise TranslateError("%s is no longer the forwarding wrapper of %s" % (al, target))
         for mod, modfile in spec.get("modules", {}).items():
             check_module_import(trees[path], mod)
             if modfile != mod + ".py" or mod in Tr(spec).assigned(fn.body, []):
